@@ -1136,7 +1136,7 @@ impl Workload for StoreWorkload {
             "parameters are generated only where the documentation decides the outcome (DESIGN.md 1.6: exact thresholds, ambig-as-missing only with threshold >= 1, no-gap-only-sites only with no-const, unique sample names)".into(),
         ]
     }
-    fn generate(&self, seed: u64, tier: Tier) -> StoreCase {
+    fn generate(&self, seed: u64, _index: u64, tier: Tier) -> StoreCase {
         self.gen(seed, tier)
     }
     fn execute(&self, c: &StoreCase, ctx: &mut Ctx) -> Result<Outcome, HarnessError> {
